@@ -11,10 +11,10 @@
      key_full        : a multi-field set is keyed by its full type name (generic arguments included) rather than by
                        `item_source` (generics stripped)                                                  [D15]
      one_passthrough : a derived set with exactly one field (and no #[single_account_set]) returns the field's
-                       definition instead of a one-field struct                                            [D18]
+                       definition instead of a one-field struct                                            [one-field-set]
      none_placeholder: the `None` alternative of `Option<multi-field set>` is the one-account program-id
-                       placeholder the client and the decoder use, rather than the empty struct             [D19]
-     false_clears    : the client meta of MaybeMut<false,_> / MaybeSigner<false,_> clears the inner flag    [D20] *)
+                       placeholder the client and the decoder use, rather than the empty struct             [option-multi-none]
+     false_clears    : the client meta of MaybeMut<false,_> / MaybeSigner<false,_> clears the inner flag    [false-modifier] *)
 From SF Require Import Base.Prelude.
 
 Record cfg := mkCfg { key_full : bool; one_passthrough : bool; none_placeholder : bool; false_clears : bool }.
